@@ -668,7 +668,9 @@ func (tw *tokenWorld) userinfo(ch *kernel.Chooser) string {
 		}
 		var m map[string]any
 		if jsonUnmarshal(r.Body, &m) == nil && t != nil {
-			if s, _ := m["sub"].(string); s != "" && s != t.Subject {
+			// (the storage names the subject for tokens whose scope contains openid; for any other token whatever "sub" the
+			// storage's own private claims carry is the storage's answer, not the library's)
+			if s, _ := m["sub"].(string); s != "" && s != t.Subject && slices.Contains(t.Scopes, oidc.ScopeOpenID) {
 				tw.viol("C08", "wrong-subject", "userinfo", "%s: userinfo sub %q, token subject %q", desc, s, t.Subject)
 			}
 		}
